@@ -178,9 +178,9 @@ func init() {
 	registerProp(&propDef{ID: "C02", Rules: rulesC02, Floor: 28,
 		Expl: "Partial: (W3) every constant width that reaches the n-bit range primitive through the static call graph is a multiple of the commit checker's base width, the only configuration-dependent width is 64 − ProofOfWorkBits and it is a positive multiple of 16 for every common_circuit_data.json in the repository (else commit-based builds panic in the deferred drain); (dispatch) C06's obligations — no backend skips or mis-selects checks, so the verdict cannot depend on the backend through a dropped constraint; (W2, where listed) honest-fit of reduction sites by interval evaluation. Acceptance of concrete proofs is not decided.",
 		Rule: "one obligation per width reaching the range primitive, per circuit description, per C06 rule"})
-	registerProp(&propDef{ID: "C10", Rules: rulesC10, Floor: 3,
-		Expl: "Narrow structural clauses only — the injectivity half of C10: in HashNoPad and HashOrNoop the limbs are packed by a loop accumulator acc' = acc + limb_k·base^k (recurrence extracted from the SSA phi; base a compile-time constant ≥ 2^64; exponent = the limb's own index; number of limbs per element bounded — by the slice bounds lo+c / min(_, lo+c) or by a dominating len(input) ≤ c — with base^T ≤ r), and ToVec splits the canonical bit decomposition (no explicit width) into consecutive disjoint chunks of ≤ 63 bits. Agreement of the BN254 Poseidon permutation, sponge and shortcut with the reference PoseidonBN128 for all inputs is numeric and not decided.",
-		Rule: "one obligation per packing accumulator and for the chunking"})
+	registerProp(&propDef{ID: "C10", Rules: func(cx *Ctx) []Obligation { return append(rulesC10(cx), rulesMulAcc(cx, "C10", "poseidon")...) }, Floor: 8,
+		Expl: "Narrow structural clauses only — the injectivity half of C10: in HashNoPad and HashOrNoop the limbs are packed by a loop accumulator acc' = acc + limb_k·base^k (recurrence extracted from the SSA phi; base a compile-time constant ≥ 2^64; exponent = the limb's own index; number of limbs per element bounded — by the slice bounds lo+c / min(_, lo+c) or by a dominating len(input) ≤ c — with base^T ≤ r), and ToVec splits the canonical bit decomposition (no explicit width) into consecutive disjoint chunks of ≤ 63 bits. Plus the MulAcc accumulator discipline (MA) at every MulAcc site of the poseidon package (BN254 permutation, packing): the accumulator is owned and dead after the call, so the computed hash does not depend on the R1CS builder re-using storage. Agreement of the BN254 Poseidon permutation, sponge and shortcut with the reference PoseidonBN128 for all inputs is numeric and not decided.",
+		Rule: "one obligation per packing accumulator, for the chunking, and per MulAcc site"})
 	registerProp(&propDef{ID: "C15", Rules: rulesC15, Floor: 8,
 		Expl: "Narrow structural clauses only — the selector-filtering and position-wise-sum half of C15, decided on the SSA of plonk/gates: EvaluateGateConstraints calls evalFiltered once for every gate with the gate's own row, selectorIndices[i], groups[selectorIndices[i]] and NumSelectors(); the results are added position-wise into a zeroed vector of numGateConstraints that is returned; evalFiltered reads the selector constant before RemovePrefix, strips exactly numSelectors constants before the gate sees them, multiplies every returned constraint by the filter; computeFilter is ∏(i−s) over [start,end) skipping exactly i = row, times (UNUSED_SELECTOR−s) iff several selectors, UNUSED_SELECTOR = 2^32−1. Equality of each Gate.EvalUnfiltered with plonky2's gate polynomial for all wire values is numeric and NOT decided.",
 		Rule: "one obligation per structural clause of the filter/sum code"})
@@ -205,9 +205,9 @@ func init() {
 	registerProp(&propDef{ID: "C05", Rules: withC06(func(cx *Ctx) []Obligation { return append(rulesC05(cx), rulesW3(cx, "C05")...) }), Floor: 30,
 		Expl: "R1 hint discipline, generic over every Compiler().NewHint call of the module: each hint output is itself the argument of a must-executed range check (bound recorded) and a must-executed equality ties all outputs to all inputs; W1: both sides of each tying equality, evaluated as polynomial bounds over the enforced output bounds and the operand contract (< p), stay below the BN254 modulus, per constant quotient width reaching the site through the call graph (interprocedural constant propagation; globals only if never re-assigned); W3 alignment of every constant width reaching the n-bit range primitive; plus C06's obligations (a backend that drops checks voids the bounds). Decides uniqueness of the witnessed result (no wrap) structurally; does not bound operand magnitudes at every reduction site of the whole verifier (W2, see DESIGN).",
 		Rule: "one obligation per hint output, per tying equality, per (hint site × reaching width), per width reaching the range primitive"})
-	registerProp(&propDef{ID: "C07", Rules: rulesC07, Floor: 8,
-		Expl: "Narrow structural clauses only: Inverse's product assertion is conditioned on IsZero(x) and the flag derives from it; Reduce forwards the never-reassigned constant RANGE_CHECK_NB_BITS ≥ 144; every reducing method of gl.Chip returns a hint output confined to [0,p) by a must-executed canonical range check. Numerical exactness for all operands is not decided.",
-		Rule: "one obligation per clause / per reducing method of gl.Chip (enumerated from the method set)"})
+	registerProp(&propDef{ID: "C07", Rules: func(cx *Ctx) []Obligation { return append(rulesC07(cx), rulesMulAcc(cx, "C07", "goldilocks")...) }, Floor: 11,
+		Expl: "Narrow structural clauses only: Inverse's product assertion is conditioned on IsZero(x) and the flag derives from it; Reduce forwards the never-reassigned constant RANGE_CHECK_NB_BITS ≥ 144; every reducing method of gl.Chip returns a hint output confined to [0,p) by a must-executed canonical range check. Plus the MulAcc accumulator discipline (MA) at every MulAcc site of the goldilocks package: the accumulator is owned and dead after the call, so the result does not depend on the R1CS builder re-using its storage. Numerical exactness for all operands is not decided.",
+		Rule: "one obligation per clause / per reducing method of gl.Chip (enumerated from the method set) / per MulAcc site"})
 	registerProp(&propDef{ID: "C08", Rules: func(cx *Ctx) []Obligation { return append(rulesC08(cx), rulesC08Widths(cx)...) }, Floor: 10,
 		Expl: "Narrow structural clauses only: InverseExtension must-asserts IsZero(a[0])·IsZero(a[1]) == 0 (zero test over both coordinates); DivExtension passes its divisor itself to InverseExtension on every path; every quotient width that reaches the witnessed reduction (including from the extension API) admits a single result (W1) and the reduction/MulAdd hint discipline holds (R1). The field identities are not decided.",
 		Rule: "one obligation per clause"})
